@@ -209,6 +209,7 @@ func (in *instr) hasRecv(n ast.Node) bool {
 
 var fsFuncs = map[string]bool{"OpenFile": true, "Create": true, "Rename": true, "Remove": true,
 	"RemoveAll": true, "WriteFile": true, "Truncate": true, "Symlink": true, "Link": true}
+var bufMethods = map[string]bool{"Flush": true, "Write": true, "WriteString": true, "WriteByte": true, "WriteRune": true, "ReadFrom": true}
 var fsMethods = map[string]bool{"Write": true, "WriteString": true, "WriteAt": true, "Close": true,
 	"Truncate": true, "Sync": true}
 
@@ -231,6 +232,19 @@ func (in *instr) hasFSOp(n ast.Node) bool {
 			}
 			if r, name, ok := in.methodOn(v.Fun); ok && r == "os.File" && fsMethods[name] {
 				found = true
+			}
+			// buffered and indirect writers: the write-through can happen in any of
+			// these calls, so each is a point where the file system may change
+			if r, name, ok := in.methodOn(v.Fun); ok && r == "bufio.Writer" && bufMethods[name] {
+				found = true
+			}
+			if p, name, ok := in.pkgFunc(v.Fun); ok && len(v.Args) > 0 &&
+				((p == "fmt" && strings.HasPrefix(name, "Fprint")) || (p == "io" && (name == "WriteString" || name == "Copy" || name == "CopyN" || name == "CopyBuffer"))) {
+				if t := in.info.TypeOf(v.Args[0]); t != nil {
+					if ts := t.String(); ts == "*os.File" || ts == "*bufio.Writer" {
+						found = true
+					}
+				}
 			}
 		}
 		return !found
